@@ -101,6 +101,9 @@ def cases(draw, modes):
             if w[k][k] == 0.0:
                 w[k][k] = 1.0
         hard = True
+        if draw(st.booleans()):
+            # the usual way to write hard communities down: an integer 0/1(/2) matrix
+            u = [[int(draw(st.sampled_from([1, 1, 2]))) if x else 0 for x in r] for r in u]
     case = {"mode": mode, "N": N, "K": K, "u": u, "w": w, "hard_memberships": hard,
             "exact_dyadic": draw(st.booleans()),
             "burn_in": draw(st.integers(0, 30)),
@@ -179,10 +182,17 @@ def build_initial(case):
     return h, [frozenset(e) for e in edges]
 
 
-def new_sampler(case):
+def parameter_arrays(case):
+    u = case["u"]
+    int_u = all(isinstance(x, int) for r in u for x in r)
+    return np.array(u, dtype=int if int_u else float), np.array(case["w"], dtype=float)
+
+
+def new_sampler(case, arrays=None):
     from hypergraphx.generation.hy_mmsbm_sampling import HyMMSBMSampler
+    u, w = arrays if arrays is not None else parameter_arrays(case)
     return HyMMSBMSampler(
-        u=np.array(case["u"], dtype=float), w=np.array(case["w"], dtype=float),
+        u=u, w=w,
         max_hye_size=max_hye_arg(case), exact_dyadic_sampling=case["exact_dyadic"],
         burn_in_steps=case["burn_in"], intermediate_steps=case["intermediate"],
         seed=case["seed"])
@@ -208,9 +218,9 @@ class Discarded(Exception):
     pass
 
 
-def draw_samples(case):
+def draw_samples(case, arrays=None):
     """(sampler, [Hypergraph, ...]) -- the first n_samples elements of sample()."""
-    sampler = new_sampler(case)
+    sampler = new_sampler(case, arrays)
     gen = iter(sampler.sample(**sample_kwargs(case)))
     out = []
     for _ in range(case["n_samples"]):
@@ -522,9 +532,13 @@ def check_samples_valid(case, samples):
 def check_determinism(case, ctx):
     steps = _classify(case, ctx)
     runs = []
+    # every other case hands the SAME two arrays to both samplers (the second one is built
+    # after the first one has run), the others build them from copies
+    shared = parameter_arrays(case) if case["seed"] % 2 else None
+    ctx.label("same_array_objects" if shared is not None else "copies_of_the_arrays")
     for _ in range(2):
         try:
-            sampler, samples = draw_samples(case)
+            sampler, samples = draw_samples(case, shared)
             runs.append([{k: int(v) for k, v in table(h).items()} for h in samples])
         except Discarded:
             runs.append("discarded")
@@ -538,14 +552,86 @@ def check_determinism(case, ctx):
         return r if r == "discarded" else [
             sorted((sorted(e, key=repr), w) for e, w in t.items()) for t in r]
     require(a == b,
-            lambda: "two samplers built from copies of the same parameters and seed %d "
+            lambda: "two samplers built from %s parameters and seed %d "
             "(mode %s) gave different sample sequences:\n first  %r\n second %r"
-            % (case["seed"], case["mode"], show(a), show(b)), key="not_reproducible")
+            % ("the same (array objects u, w)" if shared is not None else "copies of the same",
+               case["seed"], case["mode"], show(a), show(b)), key="not_reproducible")
     ctx.nontrivial(steps >= 10 and any(len(t) >= 2 for t in a) and
                    len({frozenset(t.items()) for t in a}) > 1)
 
 
 ALL_MODES = ("initial", "initial", "sequences", "model", "model", "deg_only", "dim_only")
+
+
+# --------------------------------------------------------------------------
+# C16.truncated_poisson: the weight sampler on the whole unit interval
+#
+# "positive integer weights" and "dropped only on coincidence" rest on the module's public
+# sample_truncated_poisson(lambd, rng): the chain calls it with the hyperedges' Poisson means
+# and drops a hyperedge whose weight is not > 0.  The interesting uniform draws (the two
+# ends of [0, 1)) have probability ~1e-7 per hyperedge under seed sampling, so here the
+# Generator handed to the function is a numpy Generator whose random() returns drawn numbers.
+
+U_POOL = [0.0, 1e-300, 1e-17, 1e-7, 1e-3, 0.25, 0.5, 0.75, 1 - 1e-3, 1 - 1e-7, 1 - 1e-12,
+          1 - 2.0 ** -53]
+LAMBDA_POOL = [1e-300, 1e-16, 1e-10, 1e-7, 1e-3, 0.1, 1.0, 5.0, 39.0, 41.0, 200.0, 1e3]
+
+
+@st.composite
+def tp_cases(draw):
+    n = draw(st.integers(1, 4))
+    lam = draw(st.lists(st.one_of(st.sampled_from(LAMBDA_POOL), st.floats(1e-12, 60.0)),
+                        min_size=n, max_size=n))
+    us = draw(st.lists(st.one_of(st.sampled_from(U_POOL),
+                                 st.floats(0.0, 1.0, exclude_max=True)),
+                       min_size=n, max_size=n))
+    return {"lambda": lam, "u": us, "scalar": n == 1 and draw(st.booleans())}
+
+
+def check_truncated_poisson(case, ctx):
+    import importlib
+    from scipy import stats
+    mod = importlib.import_module("hypergraphx.generation.hy_mmsbm_sampling")
+    lam, us = case["lambda"], case["u"]
+    consulted = []
+
+    class Fixed(np.random.Generator):
+        def random(self, *shape, **kw):
+            consulted.append(shape)
+            size = shape[0] if shape and isinstance(shape[0], tuple) else shape
+            size = kw.get("size", size) or (1,)
+            return np.resize(np.array(us, dtype=float), size)
+
+    rng = Fixed(np.random.PCG64(0))
+    arg = lam[0] if case["scalar"] else np.array(lam, dtype=float)
+    out = mod.sample_truncated_poisson(arg, rng=rng)
+    if not consulted:
+        ctx.exclude("sample_truncated_poisson did not ask the Generator for uniform numbers")
+        return
+    vals = np.atleast_1d(np.asarray(out, dtype=float))
+    require(vals.shape == (len(lam),),
+            lambda: "sample_truncated_poisson(%r): result of shape %r for %d rates"
+            % (arg, vals.shape, len(lam)), key="tp-shape")
+    tail = False
+    for l, u, y in zip(lam, us, vals.tolist()):
+        require(np.isfinite(y) and y >= 1 and y == int(y),
+                lambda: "sample_truncated_poisson(rate %r) with the uniform draw %r returned %r: "
+                        "a truncated Poisson variable is a finite integer >= 1 (the sampler "
+                        "drops a hyperedge whose weight is not > 0 after astype(int))"
+                % (l, u, y), key="tp-range")
+        if u <= 1e-7 or u >= 1 - 1e-7:
+            tail = True
+        # quantile property where double precision can express it
+        if 1e-3 <= l <= 60 and 1e-9 <= u <= 1 - 1e-9:
+            p0 = float(np.exp(-l))
+            cdf = lambda k: (float(stats.poisson.cdf(k, l)) - p0) / (1.0 - p0)
+            require(cdf(y) >= u - 1e-9 and (y == 1 or cdf(y - 1) <= u + 1e-9),
+                    lambda: "sample_truncated_poisson(rate %r), uniform draw %r -> %r is not the "
+                            "quantile of the truncated law: F(%d)=%r, F(%d)=%r"
+                    % (l, u, y, y - 1, cdf(y - 1), y, cdf(y)), key="tp-quantile")
+    ctx.label("tail_draw" if tail else "central_draw", "scalar" if case["scalar"] else "array")
+    ctx.nontrivial(tail)
+
 
 CLAUSES = [
     Clause("validity", lambda tier: cases(("initial", "sequences", "model", "model")),
@@ -566,4 +652,7 @@ CLAUSES = [
            check_determinism, quick=150, thorough=900, shards_quick=3,
            rule="at least 10 MCMC steps, a sample with >= 2 hyperedges and two different "
                 "samples in the sequence"),
+    Clause("truncated_poisson", lambda tier: tp_cases(),
+           check_truncated_poisson, quick=400, thorough=4000,
+           rule="a uniform draw within 1e-7 of either end of [0, 1)"),
 ]
